@@ -144,6 +144,28 @@ class SimSpec(vlib.Spec):
                 continue
             for ds in sim.tick_scripts(to, 1500 if thorough else 150):
                 cases.append({"k": "tick", "hooks": t, "src": "exh", "rounds": [{"push": [], "ds": ds}]})
+        # 2b. keyed-singleton version histories: a key gets >= 2 versions released in successive
+        #     rounds, then a round in which only an unrelated key (or nothing of that key) is
+        #     pending, so the key is re-released unchanged -- it must be the LATEST version
+        for i in range(60 if thorough else 24):
+            k1, k2 = rng.sample([1, 2, 3, 7, 100, 65536], 2)
+            v = 10 + rng.below(5)
+            rounds = [{"push": [], "force": True, "ds": [], "seed": rng.next() >> 11}]
+            for _ in range(1 + rng.below(3)):
+                v += 1 + rng.below(3)
+                rounds.append({"push": [[k1, v]], "force": True, "ds": [], "seed": rng.next() >> 11})
+            rounds.append({"push": [[k2, 50 + rng.below(9)]], "force": True, "ds": [], "seed": rng.next() >> 11})
+            rounds.append({"push": [[k1, v + 5], [k1, v + 6], [k2, 70]], "force": rng.chance(1, 2), "ds": [],
+                           "seed": rng.next() >> 11})
+            rounds.append({"push": [[k2, 71]], "force": True, "ds": [], "seed": rng.next() >> 11})
+            h = {"kind": "ksingle", "m": [[k1, [v - 100 if v > 100 else 9]]], "tr": None, "last": []}
+            if i % 3 == 2:
+                hs = [h, {"kind": "stream_t", "q": [1], "tr": None}]
+                trs = [{"push": [[0, k, x] for k, x in r["push"]] + ([[1, 0, 2]] if j % 2 else []), "ds": [],
+                        "seed": r["seed"]} for j, r in enumerate(rounds)]
+                cases.append({"k": "tick", "hooks": hs, "src": "kshist", "rounds": trs})
+            else:
+                cases.append({"k": "hook", "hook": h, "src": "kshist", "rounds": rounds})
         # 3. random multi-round histories (seeded driver continuation; the decisions actually
         #    returned are reported by the harness and replayed on the model)
         nr = n
